@@ -506,24 +506,32 @@ Section Proofs.
   Lemma total_refl : total -> forall a, leb a a = true.
   Proof. intros T a. destruct (T a a); auto. Qed.
 
+  (** The order [le] in which "no worse" is stated need not be the rollback test [leb] of the code
+      (reporter.improvement <= 0, i.e. [leb q0 q1]): all that matters is that a result which is NOT
+      rolled back is no worse.  [leb] itself (with [total]) is one instance, the strict test
+      "improvement < 0" (ties are kept) with the same order is another. *)
+  Variable le : V -> V -> bool.
+  Definition reflexive_le := forall a : V, le a a = true.
+  Definition transitive_le := forall a b c : V, le a b = true -> le b c = true -> le a c = true.
+  Definition keeps_no_worse := forall a b : V, leb a b = false -> le b a = true.
+
   Lemma step_no_worse (g : grid) (st : state) e (st' : state) oc q :
-    total -> step leb g st e = (st', oc) -> is_raised oc = false ->
+    reflexive_le -> keeps_no_worse -> step leb g st e = (st', oc) -> is_raised oc = false ->
     (forall cid, ev_cid e = Some cid -> sits g st cid) ->
-    g_gq g (pts st) = Some q -> exists q', g_gq g (pts st') = Some q' /\ leb q' q = true.
+    g_gq g (pts st) = Some q -> exists q', g_gq g (pts st') = Some q' /\ le q' q = true.
   Proof.
-    intros T H Hr Hs Hq. destruct e as [|cid evals|cid o]; simpl in H.
-    - inversion H; subst. exists q. split; auto. apply total_refl; auto.
+    intros T K H Hr Hs Hq. destruct e as [|cid evals|cid o]; simpl in H.
+    - inversion H; subst. exists q. split; auto.
     - assert (st' = st) as ->.
       { eapply probe_restores; eauto. apply probe_spec_ok in H. inversion H; subst; try discriminate.
         destruct H3; subst; auto; discriminate. }
-      exists q. split; auto. apply total_refl; auto.
+      exists q. split; auto.
     - pose proof (optimize_clamp_spec _ _ _ _ _ _ H) as S. inversion S; subst; try discriminate.
       + match goal with |- exists q', g_gq g (pts ?s) = _ /\ _ => assert (E0 : s = st) end.
         { eapply optimize_clamp_restores; eauto. intros q0 q1 E.
           destruct H3 as [E'|[E'|(a & b & E' & _)]]; rewrite E' in E; discriminate. }
-        rewrite E0. exists q. split; auto. apply total_refl; auto.
+        rewrite E0. exists q. split; auto.
       + rewrite Hq in H2. inversion H2; subst q0. exists q1. split; auto.
-        destruct (T q1 q); auto. congruence.
   Qed.
 
   (** * sequences of events *)
@@ -598,12 +606,13 @@ Section Proofs.
   Proof. intros Hwf H I cid Hc. eapply run_events_sits; eauto. Qed.
 
   (** completed run from a sitting state: quality never gets worse, at every prefix *)
-  Lemma run_events_no_worse (g : grid) : total -> transitive -> forall evs (st : state) tr (fin : state) q,
+  Lemma run_events_no_worse_gen (g : grid) : reflexive_le -> transitive_le -> keeps_no_worse ->
+    forall evs (st : state) tr (fin : state) q,
     wf g (length (pts st)) -> inv g st -> run_events leb g st evs = (tr, fin) -> completed tr = true ->
-    g_gq g (pts st) = Some q -> exists q', g_gq g (pts fin) = Some q' /\ leb q' q = true.
+    g_gq g (pts st) = Some q -> exists q', g_gq g (pts fin) = Some q' /\ le q' q = true.
   Proof.
-    intros T Tr. induction evs as [|e r IH]; intros st tr fin q Hwf I H C Hq; simpl in H.
-    - inversion H; subst. exists q. split; auto. apply total_refl; auto.
+    intros T Tr K. induction evs as [|e r IH]; intros st tr fin q Hwf I H C Hq; simpl in H.
+    - inversion H; subst. exists q. split; auto.
     - destruct (step leb g st e) as [st1 oc] eqn:Hs.
       destruct (is_raised oc) eqn:Hr.
       + inversion H; subst. simpl in C. rewrite Hr in C. discriminate.
@@ -615,7 +624,7 @@ Section Proofs.
             + apply probe_spec_ok in Hs. inversion Hs; subst; try discriminate; apply nth_error_Some; congruence.
             + apply optimize_clamp_spec in Hs. inversion Hs; subst; try discriminate; apply nth_error_Some; congruence.
           - rewrite He in He'. inversion He'; subst. apply nth_error_Some; congruence. }
-        destruct (step_no_worse _ _ _ _ _ _ T Hs Hr Hs' Hq) as (q1 & Hq1 & L1).
+        destruct (step_no_worse _ _ _ _ _ _ T K Hs Hr Hs' Hq) as (q1 & Hq1 & L1).
         pose proof (step_length _ _ _ _ _ Hs) as [Lp _].
         assert (I1 : inv g st1) by (intros cid Hc; eapply step_sits; eauto).
         assert (Hwf1 : wf g (length (pts st1))) by (rewrite Lp; exact Hwf).
@@ -624,7 +633,9 @@ Section Proofs.
   Qed.
 
   (** every clamp that took part in a completed run sits afterwards, whatever the entry state *)
-  Lemma run_events_establishes (g : grid) : total -> forall evs (st : state) tr (fin : state),
+  Definition ties_roll_back := forall a : V, leb a a = true.
+
+  Lemma run_events_establishes_gen (g : grid) : ties_roll_back -> forall evs (st : state) tr (fin : state),
     wf g (length (pts st)) -> run_events leb g st evs = (tr, fin) -> completed tr = true ->
     forall cid, In cid (ev_cids evs) -> sits g fin cid.
   Proof.
@@ -647,7 +658,7 @@ Section Proofs.
           -- simpl in Hs. pose proof (optimize_clamp_spec _ _ _ _ _ _ Hs) as S. inversion S; subst; try discriminate.
              ++ apply sits_mv; auto. apply nth_error_Some; congruence.
              ++ destruct H5 as [->|(x & _ & _ & ->)].
-                ** exfalso. rewrite H2 in H3. inversion H3; subst. rewrite (total_refl T) in H4. discriminate.
+                ** exfalso. rewrite H2 in H3. inversion H3; subst. rewrite (T _) in H4. discriminate.
                 ** apply sits_mv; auto. apply nth_error_Some; congruence.
         * eapply (IH st1); [rewrite Lp; exact Hwf | exact Hre | exact C | exact Hin].
   Qed.
@@ -693,6 +704,11 @@ Section Proofs.
       right. exists c, x. auto.
   Qed.
 
+  Lemma run_events_establishes (g : grid) : total -> forall evs (st : state) tr (fin : state),
+    wf g (length (pts st)) -> run_events leb g st evs = (tr, fin) -> completed tr = true ->
+    forall cid, In cid (ev_cids evs) -> sits g fin cid.
+  Proof. intro T. apply run_events_establishes_gen. exact (total_refl T). Qed.
+
   Lemma run_events_on_manifold (g : grid) : total -> forall evs (st : state) tr (fin : state),
     wf g (length (pts st)) -> run_events leb g st evs = (tr, fin) -> completed tr = true ->
     forall cid, In cid (ev_cids evs) ->
@@ -722,16 +738,16 @@ Section Proofs.
     intro H. inversion H; subst. split; intro E; rewrite E; reflexivity.
   Qed.
 
-  Lemma optimize_no_worse (g : grid) : total -> transitive ->
+  Lemma optimize_no_worse_gen (g : grid) : reflexive_le -> transitive_le -> keeps_no_worse ->
     forall its (st : state) mesh tr (fin : state) mesh' q,
       wf g (length (pts st)) -> inv g st ->
       optimize leb g st mesh its = (tr, fin, mesh') -> completed tr = true ->
       g_gq g (pts st) = Some q ->
-      exists q', g_gq g mesh' = Some q' /\ leb q' q = true.
+      exists q', g_gq g mesh' = Some q' /\ le q' q = true.
   Proof.
-    intros T Tr its st mesh tr fin mesh' q Hwf I H C Hq. unfold optimize in H.
+    intros T Tr K its st mesh tr fin mesh' q Hwf I H C Hq. unfold optimize in H.
     destruct (run_events leb g st (optimize_events its)) as [tr0 fin0] eqn:Hr.
-    inversion H; subst. rewrite C. eapply run_events_no_worse; eauto.
+    inversion H; subst. rewrite C. eapply run_events_no_worse_gen; eauto.
   Qed.
 
   (** * backport *)
@@ -775,3 +791,32 @@ End Proofs.
 Arguments mv {X P V}. Arguments sits {X P V}. Arguments wf {X P V}. Arguments inv {X P V}.
 Arguments total {V}. Arguments transitive {V}. Arguments ev_cids {X}. Arguments ev_cid {X}.
 Arguments opt_trials {X}. Arguments near {X P V}.
+Arguments reflexive_le {V}. Arguments transitive_le {V}. Arguments keeps_no_worse {V}.
+Arguments ties_roll_back {V}.
+
+(** the code's own test as the order: [leb] total and transitive *)
+Section OwnOrder.
+  Variables X P V : Type.
+  Variable leb : V -> V -> bool.
+
+  Lemma total_keeps : total leb -> keeps_no_worse leb leb.
+  Proof. intros T a b H. destruct (T a b) as [E|E]; auto. congruence. Qed.
+
+  Lemma run_events_no_worse (g : grid X P V) : total leb -> transitive leb ->
+    forall evs (st : state X P) tr (fin : state X P) q,
+    wf g (length (pts st)) -> inv g st -> run_events leb g st evs = (tr, fin) -> completed tr = true ->
+    g_gq g (pts st) = Some q -> exists q', g_gq g (pts fin) = Some q' /\ leb q' q = true.
+  Proof.
+    intros T Tr. apply (run_events_no_worse_gen X P V leb leb g (total_refl V leb T) Tr (total_keeps T)).
+  Qed.
+
+  Lemma optimize_no_worse (g : grid X P V) : total leb -> transitive leb ->
+    forall its (st : state X P) mesh tr (fin : state X P) mesh' q,
+      wf g (length (pts st)) -> inv g st ->
+      optimize leb g st mesh its = (tr, fin, mesh') -> completed tr = true ->
+      g_gq g (pts st) = Some q ->
+      exists q', g_gq g mesh' = Some q' /\ leb q' q = true.
+  Proof.
+    intros T Tr. apply (optimize_no_worse_gen X P V leb leb g (total_refl V leb T) Tr (total_keeps T)).
+  Qed.
+End OwnOrder.
